@@ -18,6 +18,7 @@ KNOB_SETS = [
     {"p_macro": 1.0, "max_macros": 3, "p_if": 1.0, "dead_defs_invisible": True, "p_macro_name_clash": 0.2},
     {"p_segments": 0.0, "p_import": 0.0, "top_stmts": 20, "p_label_const": 0.5},        # constants/variables that follow labels   # names past untaken branches, macro-named labels
     {"p_import": 1.0, "p_segments": 0.2},
+    {"p_segments": 0.6, "max_segments": 3, "p_relocated": 0.5, "p_setpc_back": 1.0, "p_macro": 1.0, "p_macro_segment": 0.6},   # `* =` back over written bytes, macros that switch the segment
 ]
 
 
